@@ -46,11 +46,16 @@ func wcGen(c *runCtx, run func([]string)) {
 	for i := 0; i < c.n(120, 6000); i++ {
 		var ops []string
 		n := 6 + c.rng.IntN(25)
+		// an address is the hash of the object: one address always carries the same bytes
+		var psize [6]int
+		for a := range psize {
+			psize[a] = []int{0, 10, 300, 900, 2500}[c.rng.IntN(5)] + c.rng.IntN(3)
+		}
 		for j := 0; j < n; j++ {
 			a := 1 + c.rng.IntN(5)
 			switch k := c.rng.IntN(100); {
 			case k < 50:
-				ops = append(ops, fmt.Sprintf("wc put a=%d psize=%d", a, []int{0, 10, 300, 900, 2500}[c.rng.IntN(5)]+c.rng.IntN(3)))
+				ops = append(ops, fmt.Sprintf("wc put a=%d psize=%d", a, psize[a]))
 			case k < 65:
 				ops = append(ops, fmt.Sprintf("wc del a=%d", a))
 			case k < 80:
@@ -97,11 +102,11 @@ func wcExec(c *runCtx, ops []string) {
 		size, n := writecache.VerifSize(wc)
 		var files []string
 		var total uint64
-		_ = wc.Iterate(func(a oid.Address, d []byte) error {
+		_ = writecache.VerifFiles(wc, func(a oid.Address, d []byte) error {
 			files = append(files, fmt.Sprintf("%d:%d", oidNum(a.Object()), len(d)))
 			total += uint64(len(d))
 			return nil
-		}, false)
+		})
 		sort.Strings(files)
 		var mains []string
 		_ = main.Iterate(func(a oid.Address, d []byte) error {
